@@ -44,7 +44,69 @@ type c16Schedule struct {
 	Parallel int   `json:"parallel"` // attempts allowed to run at once (1 = serial)
 }
 
+// genChainScenario builds an npm universe in which every relaxation of the single direct
+// dependency "top" to its next major version trades the vulnerable libraries of one
+// version for those of the next: top@k.0.0 depends on a generated set of 0..2 vulnerable
+// libraries. This gives deep chains of follow-up attempts ("patch the introduced
+// vulnerabilities as well"), several of them spawned at once.
+func genChainScenario(t *rapid.T) universe.Scenario {
+	libs := []string{"liba", "libb", "libc", "libd", "libe"}
+	n := rapid.IntRange(3, 7).Draw(t, "chain_versions")
+	schema := []string{"top"}
+	used := map[string]bool{}
+	for k := 1; k <= n; k++ {
+		schema = append(schema, fmt.Sprintf("  %d.0.0", k))
+		var set []string
+		switch {
+		case k == 1:
+			set = []string{rapid.SampledFrom(libs).Draw(t, "lib1")}
+		case k == n:
+			// the last version is clean
+		default:
+			m := rapid.IntRange(0, 2).Draw(t, "n_libs")
+			for i := 0; i < m; i++ {
+				l := rapid.SampledFrom(libs).Draw(t, "lib")
+				dup := false
+				for _, x := range set {
+					dup = dup || x == l
+				}
+				if !dup {
+					set = append(set, l)
+				}
+			}
+		}
+		for _, l := range set {
+			used[l] = true
+			schema = append(schema, fmt.Sprintf("    %s@^1.0.0", l))
+		}
+	}
+	var vulns []universe.OSV
+	for i, l := range libs {
+		schema = append(schema, l, "  1.0.0")
+		if used[l] {
+			vulns = append(vulns, universe.OSV{ID: fmt.Sprintf("OSV-2024-%d", i+1), Affected: []universe.OSVAffected{{
+				Package: universe.OSVPackage{Ecosystem: "npm", Name: l},
+				Ranges:  []universe.OSVRange{{Type: "SEMVER", Events: []universe.OSVEvent{{Introduced: "0"}}}},
+			}}})
+		}
+	}
+	return universe.Scenario{
+		Universe: universe.Universe{System: universe.NPM, Schema: schema},
+		Manifest: universe.Manifest{System: universe.NPM, Name: "verif-root", Version: "1.0.0", Deps: []universe.Requirement{{Name: "top", Req: "^1.0.0"}}},
+		Vulns:    vulns,
+		Levels:   universe.Levels{Default: "major"},
+	}
+}
+
 func genC16Patch(t *rapid.T) c16PatchCase {
+	if rapid.IntRange(0, 2).Draw(t, "chain") == 0 {
+		c := c16PatchCase{Scenario: genChainScenario(t)}
+		n := rapid.IntRange(4, 12).Draw(t, "n_choices")
+		for i := 0; i < n; i++ {
+			c.Choices = append(c.Choices, rapid.IntRange(0, 5).Draw(t, "choice"))
+		}
+		return c
+	}
 	system := rapid.SampledFrom([]string{universe.NPM, universe.Maven}).Draw(t, "system")
 	cfg := universe.DefaultConfig(system)
 	cfg.MaxPackages = 5
@@ -253,7 +315,7 @@ func propC16Patch(c c16PatchCase) (ev.Outcome, error) {
 	}
 	sort.Strings(ids)
 	o.Classes = append(o.Classes, fmt.Sprintf("patch_initial_attempts_%d", min(len(ids), 5)))
-	if len(ids) < 2 {
+	if len(ids) < 1 {
 		return o, nil
 	}
 	// the list is sorted by Patch.Compare and holds no two patches that compare equal
